@@ -178,4 +178,291 @@ theorem Acc.alt (pre : List (List UInt8 × Nat)) (oid : List UInt8) (len : Nat) 
   · intro _ _ _ _; rfl
 
 
+/-! ### PrivateKeyInfo and share -/
+
+theorem v48 : derTIsValid 48 = true := by decide +kernel
+theorem c48 : derTIsConstructive 48 = true := by decide +kernel
+theorem l48 : 48 < U32 := by decide
+
+/-- PrivateKeyInfo / share: SEQ { SIZE(0), SEQ { OID(alg), OID(curve) }, OCT(key) } -/
+def pkiTree (alg curve : List UInt8) (k : List UInt8) : Tree :=
+  .seq 0 48 [.prim (sizeCode 2 0), .seq 1 48 [.prim (oidCode alg), .prim (oidCode curve)], .prim (tlvCode 4 k)]
+
+theorem pkiTree_ok (alg curve k : List UInt8) : Tree.OkL [pkiTree alg curve k] := by
+  simp only [pkiTree, Tree.OkL, Tree.Ok, Tree.slotsL, Tree.slots, and_true, true_and]
+  refine ⟨v48, c48, l48, by simp, v48, c48, l48, by simp⟩
+
+/-- the code of the tree, associated as the acceptance combinators build it -/
+def pkiCode (alg curve k : List UInt8) : List UInt8 :=
+  beBytes (tCount 48) 48 ++
+    derLEnc (sizeCode 2 0 ++ (beBytes (tCount 48) 48 ++ derLEnc (oidCode alg ++ oidCode curve).length ++ (oidCode alg ++ oidCode curve) ++ tlvCode 4 k)).length ++
+    (sizeCode 2 0 ++ (beBytes (tCount 48) 48 ++ derLEnc (oidCode alg ++ oidCode curve).length ++ (oidCode alg ++ oidCode curve) ++ tlvCode 4 k))
+
+theorem pkiTree_code (alg curve k : List UInt8) : Tree.codeL [pkiTree alg curve k] = pkiCode alg curve k := by
+  simp only [pkiTree, pkiCode, Tree.codeL, Tree.code, List.append_nil, List.append_assoc]
+
+/-- the decoder steps of a PrivateKeyInfo-like container accept the code of the tree and output the key -/
+theorem pki_acc (alg curve k : List UInt8) (pre post : List (List UInt8 × Nat))
+    (halg : (derOIDEnc alg).isOk = true) (hcurve : (derOIDEnc curve).isOk = true) (hstr0 : ∀ b ∈ curve, b ≠ 0)
+    (hpre : ∀ x ∈ pre, x.1 ≠ curve ∧ ∀ b ∈ x.1, b ≠ 0) :
+    ∃ f u, Acc [dStart 0 48, dPrim (sizeDec2 0), dStart 1 48, dPrim (oidDec2 alg), dAlt (pre ++ (curve, k.length) :: post),
+        dStop 1, dOctLen, dStop 0] (pkiCode alg curve k) (fun _ => True) f u ∧ ∀ p st, (f p st).outs = st.outs ++ [k] := by
+  have a1 := Acc.append (Acc.oid alg halg) (Acc.alt pre curve k.length post hcurve hstr0 hpre) (fun _ _ _ => trivial)
+  have s1 := Acc.seq 1 48 a1 v48 c48 l48 (by simp) (fun _ _ _ _ => trivial)
+  have a2 := Acc.append s1 (Acc.octLen k) (fun p st _ => by simp)
+  have a3 := Acc.append (Acc.prim (sizeDec2 0) (sizeCode 2 0) (fun rest _ => sizeDec2_code 0 (by decide) rest)) a2
+    (fun _ _ _ => trivial)
+  have s0 := Acc.seq 0 48 a3 v48 c48 l48 (by simp) (fun _ _ _ _ => trivial)
+  exact ⟨_, _, s0, fun p st => rfl⟩
+
+
+theorem tlvCode_le (tag : Nat) (v : List UInt8) (hlt : tag < U32) (hv : v.length < W) : (tlvCode tag v).length ≤ 13 + v.length := by
+  unfold tlvCode
+  have h4 := tCount_le4 tag hlt
+  have h9 := derLEnc_le9 v.length hv
+  simp [beBytes_length]; omega
+
+theorem sizeCode20_len : (sizeCode 2 0).length = 3 := by decide +kernel
+
+theorem pki_enc (alg curve k : List UInt8) (halg : (derOIDEnc alg).isOk = true) (hcurve : (derOIDEnc curve).isOk = true)
+    (hs : (oidCode alg).length + (oidCode curve).length + k.length < 4294967296) :
+    runEnc [.start 0 48, .bytes (derTSIZEEnc 2 0), .start 1 48, .bytes (derOIDEnc alg), .bytes (derOIDEnc curve), .stop 1,
+      .bytes (derEnc 4 k), .stop 0] [] [] = .ok (pkiCode alg curve k) := by
+  rw [derTSIZEEnc_eq 2 0 (by decide), oidCode_ok alg halg, oidCode_ok curve hcurve, derEnc_eq 4 k (by decide)]
+  have hsteps : [EStep.start 0 48, .bytes (.ok (sizeCode 2 0)), .start 1 48, .bytes (.ok (oidCode alg)), .bytes (.ok (oidCode curve)), .stop 1,
+      .bytes (.ok (beBytes (tCount 4) 4 ++ derLEnc k.length ++ k)), .stop 0] = Tree.stepsL [pkiTree alg curve k] := by
+    simp [Tree.stepsL, Tree.steps, pkiTree, tlvCode]
+  rw [hsteps, runEnc_tree [pkiTree alg curve k] (pkiTree_ok alg curve k) [] []
+    (by
+      have := tlvCode_le 4 k (by decide) (by omegaW)
+      simp only [pkiTree, Tree.boundL, Tree.bound, List.length_nil, sizeCode20_len]
+      omegaW),
+    List.nil_append, pkiTree_code]
+
+
+theorem pkiCode_len (alg curve k : List UInt8) (hs : (oidCode alg).length + (oidCode curve).length + k.length < 4294967296) :
+    (pkiCode alg curve k).length ≤ 4294967296 + 64 := by
+  rw [← pkiTree_code]
+  have hb : Tree.boundL [pkiTree alg curve k] ≤ 4294967296 + 60 := by
+    have := tlvCode_le 4 k (by decide) (by omegaW)
+    simp only [pkiTree, Tree.boundL, Tree.bound, List.length_nil, sizeCode20_len]
+    omega
+  have := Tree.codeL_le [pkiTree alg curve k] (pkiTree_ok alg curve k) (by omegaW)
+  omega
+
+/-- generic round trip of a PrivateKeyInfo-like container -/
+theorem pki_roundtrip_gen (alg curve k : List UInt8) (pre post : List (List UInt8 × Nat))
+    (halg : (derOIDEnc alg).isOk = true) (hcurve : (derOIDEnc curve).isOk = true) (hstr0 : ∀ b ∈ curve, b ≠ 0)
+    (hpre : ∀ x ∈ pre, x.1 ≠ curve ∧ ∀ b ∈ x.1, b ≠ 0)
+    (hs : (oidCode alg).length + (oidCode curve).length + k.length < 4294967296) :
+    ∃ st, runDec (pkiCode alg curve k) [dStart 0 48, dPrim (sizeDec2 0), dStart 1 48, dPrim (oidDec2 alg),
+        dAlt (pre ++ (curve, k.length) :: post), dStop 1, dOctLen, dStop 0] {} 0 = .ok ((pkiCode alg curve k).length, st) ∧
+      st.outs = [k] := by
+  obtain ⟨f, u, hacc, hout⟩ := pki_acc alg curve k pre post halg hcurve hstr0 hpre
+  have hl := pkiCode_len alg curve k hs
+  have := hacc.run (pkiCode alg curve k) 0 [] {} [] (by simp) (by omegaW) trivial
+  rw [List.append_nil] at this
+  refine ⟨f 0 {}, ?_, by rw [hout]; rfl⟩
+  rw [this]; simp [runDec]
+
+theorem ok_pubkey : (derOIDEnc oid_bign_pubkey).isOk = true := by decide +kernel
+theorem ok_c192 : (derOIDEnc oid_bign_curve192v1).isOk = true := by decide +kernel
+theorem ok_c256 : (derOIDEnc oid_bign_curve256v1).isOk = true := by decide +kernel
+theorem ok_c384 : (derOIDEnc oid_bign_curve384v1).isOk = true := by decide +kernel
+theorem ok_c512 : (derOIDEnc oid_bign_curve512v1).isOk = true := by decide +kernel
+theorem len_pubkey : (oidCode oid_bign_pubkey).length = 12 := by decide +kernel
+theorem len_c192 : (oidCode oid_bign_curve192v1).length = 12 := by decide +kernel
+theorem len_c256 : (oidCode oid_bign_curve256v1).length = 12 := by decide +kernel
+theorem len_c384 : (oidCode oid_bign_curve384v1).length = 12 := by decide +kernel
+theorem len_c512 : (oidCode oid_bign_curve512v1).length = 12 := by decide +kernel
+
+/-- ROUND TRIP (PrivateKeyInfo): bpkiPrivkeyDec ∘ bpkiPrivkeyEnc = id for the four key lengths -/
+theorem bpkiPrivkey_roundtrip (k pki : List UInt8) (hk : k.length = 24 ∨ k.length = 32 ∨ k.length = 48 ∨ k.length = 64)
+    (he : bpkiPrivkeyEnc k = .ok pki) : ∃ st, bpkiPrivkeyDec pki = .ok (pki.length, st) ∧ st.outs = [k] := by
+  unfold bpkiPrivkeyEnc at he
+  unfold bpkiPrivkeyDec bpkiPrivkeyDecSteps
+  rcases hk with h | h | h | h
+  · rw [if_pos h, pki_enc _ _ k ok_pubkey ok_c192 (by rw [len_pubkey, len_c192]; omega)] at he
+    cases he
+    have := pki_roundtrip_gen oid_bign_pubkey oid_bign_curve192v1 k []
+      [(oid_bign_curve256v1, 32), (oid_bign_curve384v1, 48), (oid_bign_curve512v1, 64)] ok_pubkey ok_c192 (by decide +kernel)
+      (by simp) (by rw [len_pubkey, len_c192]; omega)
+    rw [h] at this
+    exact this
+  · rw [if_neg (by omega), if_pos h, pki_enc _ _ k ok_pubkey ok_c256 (by rw [len_pubkey, len_c256]; omega)] at he
+    cases he
+    have := pki_roundtrip_gen oid_bign_pubkey oid_bign_curve256v1 k [(oid_bign_curve192v1, 24)]
+      [(oid_bign_curve384v1, 48), (oid_bign_curve512v1, 64)] ok_pubkey ok_c256 (by decide +kernel)
+      (by decide +kernel) (by rw [len_pubkey, len_c256]; omega)
+    rw [h] at this
+    exact this
+  · rw [if_neg (by omega), if_neg (by omega), if_pos h, pki_enc _ _ k ok_pubkey ok_c384 (by rw [len_pubkey, len_c384]; omega)] at he
+    cases he
+    have := pki_roundtrip_gen oid_bign_pubkey oid_bign_curve384v1 k [(oid_bign_curve192v1, 24), (oid_bign_curve256v1, 32)]
+      [(oid_bign_curve512v1, 64)] ok_pubkey ok_c384 (by decide +kernel)
+      (by decide +kernel) (by rw [len_pubkey, len_c384]; omega)
+    rw [h] at this
+    exact this
+  · rw [if_neg (by omega), if_neg (by omega), if_neg (by omega), pki_enc _ _ k ok_pubkey ok_c512 (by rw [len_pubkey, len_c512]; omega)] at he
+    cases he
+    have := pki_roundtrip_gen oid_bign_pubkey oid_bign_curve512v1 k
+      [(oid_bign_curve192v1, 24), (oid_bign_curve256v1, 32), (oid_bign_curve384v1, 48)] [] ok_pubkey ok_c512 (by decide +kernel)
+      (by decide +kernel) (by rw [len_pubkey, len_c512]; omega)
+    rw [h] at this
+    exact this
+
+
+theorem ok_share : (derOIDEnc oid_bels_share).isOk = true := by decide +kernel
+theorem ok_m128 : (derOIDEnc oid_bels_m0128v1).isOk = true := by decide +kernel
+theorem ok_m192 : (derOIDEnc oid_bels_m0192v1).isOk = true := by decide +kernel
+theorem ok_m256 : (derOIDEnc oid_bels_m0256v1).isOk = true := by decide +kernel
+theorem len_share : (oidCode oid_bels_share).length = 11 := by decide +kernel
+theorem len_m128 : (oidCode oid_bels_m0128v1).length = 12 := by decide +kernel
+theorem len_m192 : (oidCode oid_bels_m0192v1).length = 12 := by decide +kernel
+theorem len_m256 : (oidCode oid_bels_m0256v1).length = 12 := by decide +kernel
+
+/-- ROUND TRIP (share container): bpkiShareDec ∘ bpkiShareEnc = id for the three share lengths -/
+theorem bpkiShare_roundtrip (k pki : List UInt8) (hk : k.length = 17 ∨ k.length = 25 ∨ k.length = 33)
+    (he : bpkiShareEnc k = .ok pki) : ∃ st, bpkiShareDec pki = .ok (pki.length, st) ∧ st.outs = [k] := by
+  unfold bpkiShareEnc at he
+  unfold bpkiShareDec bpkiShareDecSteps
+  rcases hk with h | h | h
+  · rw [if_pos h, pki_enc _ _ k ok_share ok_m128 (by rw [len_share, len_m128]; omega)] at he
+    cases he
+    have := pki_roundtrip_gen oid_bels_share oid_bels_m0128v1 k []
+      [(oid_bels_m0192v1, 25), (oid_bels_m0256v1, 33)] ok_share ok_m128 (by decide +kernel)
+      (by simp) (by rw [len_share, len_m128]; omega)
+    rw [h] at this
+    exact this
+  · rw [if_neg (by omega), if_pos h, pki_enc _ _ k ok_share ok_m192 (by rw [len_share, len_m192]; omega)] at he
+    cases he
+    have := pki_roundtrip_gen oid_bels_share oid_bels_m0192v1 k [(oid_bels_m0128v1, 17)]
+      [(oid_bels_m0256v1, 33)] ok_share ok_m192 (by decide +kernel)
+      (by decide +kernel) (by rw [len_share, len_m192]; omega)
+    rw [h] at this
+    exact this
+  · rw [if_neg (by omega), if_neg (by omega), pki_enc _ _ k ok_share ok_m256 (by rw [len_share, len_m256]; omega)] at he
+    cases he
+    have := pki_roundtrip_gen oid_bels_share oid_bels_m0256v1 k [(oid_bels_m0128v1, 17), (oid_bels_m0192v1, 25)]
+      [] ok_share ok_m256 (by decide +kernel)
+      (by decide +kernel) (by rw [len_share, len_m256]; omega)
+    rw [h] at this
+    exact this
+
+
+/-! ### EncryptedPrivateKeyInfo -/
+
+theorem Acc.cast {S : List DStep} {C C' : List UInt8} {pre : DSt → Prop} {f : Nat → DSt → DSt} {u : List Nat}
+    (h : Acc S C pre f u) (hC : C = C') : Acc S C' pre f u := hC ▸ h
+
+theorem ok_pbes2 : (derOIDEnc oid_id_pbes2).isOk = true := by decide +kernel
+theorem ok_pbkdf2 : (derOIDEnc oid_id_pbkdf2).isOk = true := by decide +kernel
+theorem ok_hmac : (derOIDEnc oid_hmac_hbelt).isOk = true := by decide +kernel
+theorem ok_kwp : (derOIDEnc oid_belt_kwp256).isOk = true := by decide +kernel
+theorem len_pbes2 : (oidCode oid_id_pbes2).length = 11 := by decide +kernel
+theorem len_pbkdf2 : (oidCode oid_id_pbkdf2).length = 11 := by decide +kernel
+theorem len_hmac : (oidCode oid_hmac_hbelt).length = 11 := by decide +kernel
+theorem len_kwp : (oidCode oid_belt_kwp256).length = 11 := by decide +kernel
+
+/-- EncryptedPrivateKeyInfo as a tree -/
+def edataTree (edata salt : List UInt8) (iter : Nat) : Tree :=
+  .seq 0 48 [
+    .seq 1 48 [
+      .prim (oidCode oid_id_pbes2),
+      .seq 2 48 [
+        .seq 3 48 [
+          .prim (oidCode oid_id_pbkdf2),
+          .seq 4 48 [
+            .prim (tlvCode 4 salt),
+            .prim (sizeCode 2 iter),
+            .seq 5 48 [.prim (oidCode oid_hmac_hbelt), .prim (tlvCode 5 [])]]],
+        .seq 6 48 [.prim (oidCode oid_belt_kwp256), .prim (tlvCode 5 [])]]],
+    .prim (tlvCode 4 edata)]
+
+theorem edataTree_ok (edata salt : List UInt8) (iter : Nat) : Tree.OkL [edataTree edata salt iter] := by
+  simp [edataTree, Tree.OkL, Tree.Ok, Tree.slotsL, Tree.slots, v48, c48, l48]
+
+set_option maxRecDepth 8000 in
+/-- the decoder steps accept the code of the tree and output salt, iter, edata -/
+theorem edata_acc (edata salt : List UInt8) (iter : Nat) (hsalt : salt.length = 8) (hiter : iter < W) :
+    ∃ f u, Acc bpkiEdataDecSteps (Tree.codeL [edataTree edata salt iter]) (fun _ => True) f u ∧
+      ∀ p st, (f p st).outs = st.outs ++ [salt, edata] ∧ (f p st).nums = iter :: st.nums := by
+  have null := Acc.prim nullDec (tlvCode 5 []) (fun rest hl => nullDec_code rest (by omega))
+  have prf := Acc.seq 5 48 (Acc.append (Acc.oid _ ok_hmac) null (fun _ _ _ => trivial)) v48 c48 l48 (by simp) (fun _ _ _ _ => trivial)
+  have lsalt := Acc.out (fun r => derTOCTDec2 r 4 8) (tlvCode 4 salt) salt
+    (fun rest hl => by have := octDec2_code salt rest (by have := tlvCode_length 4 salt; omega); rw [hsalt] at this; exact this)
+  have liter := Acc.num (fun r => derTSIZEDec r 2) (sizeCode 2 iter) iter (fun rest _ => sizeDec_code iter hiter rest)
+  have params := Acc.seq 4 48 (Acc.append lsalt (Acc.append liter prf (fun _ _ _ => trivial)) (fun _ _ _ => trivial))
+    v48 c48 l48 (by simp) (fun _ _ _ _ => trivial)
+  have pbkdf2 := Acc.seq 3 48 (Acc.append (Acc.oid _ ok_pbkdf2) params (fun _ _ _ => trivial)) v48 c48 l48 (by simp)
+    (fun _ _ _ _ => trivial)
+  have kwp := Acc.seq 6 48 (Acc.append (Acc.oid _ ok_kwp) null (fun _ _ _ => trivial)) v48 c48 l48 (by simp) (fun _ _ _ _ => trivial)
+  have pbes2 := Acc.seq 2 48 (Acc.append pbkdf2 kwp (fun _ _ _ => trivial)) v48 c48 l48 (by simp) (fun _ _ _ _ => trivial)
+  have encalg := Acc.seq 1 48 (Acc.append (Acc.oid _ ok_pbes2) pbes2 (fun _ _ _ => trivial)) v48 c48 l48 (by simp)
+    (fun _ _ _ _ => trivial)
+  have ledata := Acc.out (fun r => derTOCTDec r 4) (tlvCode 4 edata) edata
+    (fun rest hl => octDec_code edata rest (by have := tlvCode_length 4 edata; omega))
+  have epki := Acc.seq 0 48 (Acc.append encalg ledata (fun _ _ _ => trivial)) v48 c48 l48 (by simp) (fun _ _ _ _ => trivial)
+  refine ⟨_, _, Acc.cast epki (by simp only [edataTree, Tree.codeL, Tree.code, List.append_nil, List.append_assoc]), ?_⟩
+  intro p st
+  exact ⟨by simp, rfl⟩
+
+
+theorem sizeCode2_le (v : Nat) (hv : v < W) : (sizeCode 2 v).length ≤ 11 := by
+  unfold sizeCode
+  have h9 := sizeLen_le9 hv
+  have hl := derLEnc_le9 (sizeLen v) (by omegaW)
+  have h1 : tCount 2 = 1 := by decide +kernel
+  have hle : (derLEnc (sizeLen v)).length = 1 := by rw [derLEnc_length, if_pos (by omega)]
+  simp only [List.length_append, beBytes_length, h1, hle]
+  omega
+
+theorem null_len : (tlvCode 5 []).length = 2 := by decide +kernel
+
+theorem edata_enc (edata salt : List UInt8) (iter : Nat) (hsalt : salt.length = 8) (hiter : iter < W)
+    (he : edata.length < 4294967296) :
+    bpkiEdataEnc edata salt iter = .ok (Tree.codeL [edataTree edata salt iter]) := by
+  unfold bpkiEdataEnc
+  rw [oidCode_ok _ ok_pbes2, oidCode_ok _ ok_pbkdf2, oidCode_ok _ ok_hmac, oidCode_ok _ ok_kwp,
+    derEnc_eq 4 salt (by decide), derEnc_eq 4 edata (by decide), derEnc_eq 5 [] (by decide), derTSIZEEnc_eq 2 iter (by decide)]
+  have hsteps : [EStep.start 0 0x30, .start 1 0x30, .bytes (.ok (oidCode oid_id_pbes2)), .start 2 0x30, .start 3 0x30,
+      .bytes (.ok (oidCode oid_id_pbkdf2)), .start 4 0x30, .bytes (.ok (beBytes (tCount 4) 4 ++ derLEnc salt.length ++ salt)),
+      .bytes (.ok (sizeCode 2 iter)), .start 5 0x30, .bytes (.ok (oidCode oid_hmac_hbelt)),
+      .bytes (.ok (beBytes (tCount 5) 5 ++ derLEnc ([] : List UInt8).length ++ [])), .stop 5, .stop 4, .stop 3, .start 6 0x30,
+      .bytes (.ok (oidCode oid_belt_kwp256)), .bytes (.ok (beBytes (tCount 5) 5 ++ derLEnc ([] : List UInt8).length ++ [])), .stop 6,
+      .stop 2, .stop 1, .bytes (.ok (beBytes (tCount 4) 4 ++ derLEnc edata.length ++ edata)), .stop 0] =
+      Tree.stepsL [edataTree edata salt iter] := by
+    simp [Tree.stepsL, Tree.steps, edataTree, tlvCode]
+  rw [hsteps, runEnc_tree [edataTree edata salt iter] (edataTree_ok edata salt iter) [] []
+    (by
+      have h1 := tlvCode_le 4 edata (by decide) (by omegaW)
+      have h2 := tlvCode_le 4 salt (by decide) (by omegaW)
+      have h3 := sizeCode2_le iter hiter
+      simp only [edataTree, Tree.boundL, Tree.bound, List.length_nil, len_pbes2, len_pbkdf2, len_hmac, len_kwp, null_len]
+      omegaW),
+    List.nil_append]
+
+/-- ROUND TRIP (EncryptedPrivateKeyInfo): bpkiEdataDec ∘ bpkiEdataEnc = id on (edata, salt, iter) -/
+theorem bpkiEdata_roundtrip (edata salt e : List UInt8) (iter : Nat) (hsalt : salt.length = 8) (hiter : iter < W)
+    (hed : edata.length < 4294967296) (he : bpkiEdataEnc edata salt iter = .ok e) :
+    ∃ st, bpkiEdataDec e = .ok (e.length, st) ∧ st.outs = [salt, edata] ∧ st.nums = [iter] := by
+  rw [edata_enc edata salt iter hsalt hiter hed] at he
+  cases he
+  obtain ⟨f, u, hacc, hout⟩ := edata_acc edata salt iter hsalt hiter
+  have hlen : (Tree.codeL [edataTree edata salt iter]).length + 64 < W := by
+    have h1 := tlvCode_le 4 edata (by decide) (by omegaW)
+    have h2 := tlvCode_le 4 salt (by decide) (by omegaW)
+    have h3 := sizeCode2_le iter hiter
+    have hb : Tree.boundL [edataTree edata salt iter] ≤ 4294967296 + 400 := by
+      simp only [edataTree, Tree.boundL, Tree.bound, List.length_nil, len_pbes2, len_pbkdf2, len_hmac, len_kwp, null_len]
+      omega
+    have := Tree.codeL_le [edataTree edata salt iter] (edataTree_ok edata salt iter) (by omegaW)
+    omegaW
+  have := hacc.run (Tree.codeL [edataTree edata salt iter]) 0 [] {} [] (by simp) hlen trivial
+  rw [List.append_nil] at this
+  unfold bpkiEdataDec
+  refine ⟨f 0 {}, ?_, by rw [(hout 0 {}).1]; rfl, by rw [(hout 0 {}).2]⟩
+  rw [this]; simp [runDec]
+
+
 end Bee2V.C08
